@@ -4,17 +4,23 @@ var realAll = []string{"all go-typ/typ code (rewritten copy of the current worki
 var modelledAll = []string{"which goroutine runs next (one decision per synchronisation operation)", "when a blocked operation wakes", "unbuffered rendezvous hand-off (FIFO, as the runtime does)", "select choice among ready cases", "virtual clock and timers", "map iteration order"}
 
 func init() {
+	reg(&propInfo{ID: "C19", Tier: "S", QuickRuns: 3000000, ThorRuns: 60000000, RaceShare: 0.2, Clock: true,
+		Faults: []string{"preempt", "stall", "timer_fire", "close_midop", "select_multi_ready", "ctx_cancel"},
+		Real:   []string{"chans/chans.go (rewritten copy of the current working tree)", "buffer contents, closed state and panics of the real channels", "Go compiler, memory model, race detector"},
+		Modelled: modelledAll, Stubbed: []string{"context.Context: the harness's own implementation whose Done channel a simulated task closes at a chosen step (existing seam: Context is an interface)"},
+		Rule: "each run = one helper call (SendTimeout/SendContext/RecvTimeout/RecvContext on a channel of capacity 0-2 at any fill level with timeout in {-1s,0,1ms,1s,1min}, or RecvQueued/RecvQueuedFull on capacity 0-4, any fill, open or closed, limit 0-6) plus 0-3 peers (senders, receivers, a closer, a canceller) acting after a seeded number of steps and amount of virtual time, under one seeded schedule with optional stalls (clock jumps past a deadline while tasks are runnable); distinct = distinct hash of the step sequence; non-trivial = at least one preemption inside a call",
+		Assume: []string{"the attempt/park channel model of verif/sim/rt agrees with the Go runtime (FIFO among parked goroutines; checked by the divergence guards)", "a call that never returns is not a violation: the statement does not promise that a positive timeout fires", "when timer/cancellation and peer are ready in the same step both outcomes are accepted and conservation is checked in each", "bounds: <=3 peers, capacity <=4"}})
 	reg(&propInfo{ID: "C17", Tier: "S", QuickRuns: 1500000, ThorRuns: 30000000, RaceShare: 0.25,
-		Faults: []string{"preempt"},
-		Real:   []string{"sync2/once.go (rewritten copy of the current working tree)", "Go compiler, memory model, race detector", "effects of the atomic flag and the mutex inside Once"},
+		Faults:   []string{"preempt"},
+		Real:     []string{"sync2/once.go (rewritten copy of the current working tree)", "Go compiler, memory model, race detector", "effects of the atomic flag and the mutex inside Once"},
 		Modelled: []string{"which goroutine runs next", "mutex blocking and wake-up"}, Stubbed: []string{"sync.Once: re-implemented in verif/sim/ssync with the standard algorithm over the simulated mutex and atomic, so that callers can be interleaved inside it"},
-		Rule: "each run = 2-6 tasks calling Do on one Once1/Once2/Once3 with different functions (some arriving late, some calling again), each function containing 0-3 scheduling points before its final plain write; distinct = distinct hash of the step sequence; non-trivial = at least one preemption inside a Do call",
+		Rule:   "each run = 2-6 tasks calling Do on one Once1/Once2/Once3 with different functions (some arriving late, some calling again), each function containing 0-3 scheduling points before its final plain write; distinct = distinct hash of the step sequence; non-trivial = at least one preemption inside a Do call",
 		Assume: []string{"the Once re-implementation is the standard library's algorithm", "a break that bypasses once.Do with a plain flag is visible to the race detector, one with no synchronisation at all through the scheduling points inside the action", "bounds: <=6 callers, <=3 inner points"}})
 	reg(&propInfo{ID: "C18", Tier: "S", QuickRuns: 1500000, ThorRuns: 30000000, RaceShare: 0.25,
-		Faults: []string{"preempt", "pool_miss", "pool_drop", "pool_reorder"},
-		Real:   []string{"sync2/atomicvalue.go, sync2/pool.go (rewritten copy of the current working tree)", "atomic.Value operations (real, after one scheduling point each)", "Go compiler, memory model, race detector"},
+		Faults:   []string{"preempt", "pool_miss", "pool_drop", "pool_reorder"},
+		Real:     []string{"sync2/atomicvalue.go, sync2/pool.go (rewritten copy of the current working tree)", "atomic.Value operations (real, after one scheduling point each)", "Go compiler, memory model, race detector"},
 		Modelled: []string{"which goroutine runs next"}, Stubbed: []string{"sync.Pool: replaced by a stub whose legal freedoms (miss, drop a Put, return any pooled item) are scheduler draws; it publishes the same Put->Get happens-before edge the real pool does"},
-		Rule: "each run = either 2-4 tasks x 1-5 Load/Store/Swap/CompareAndSwap calls on one AtomicValue[int|string|struct] with unique values, or 2-4 tasks x 1-3 Get/use/Put cycles on one Pool with or without New and 0-2 pre-pooled tokens; distinct = distinct hash of the step sequence; non-trivial = at least one preemption inside an API call",
+		Rule:   "each run = either 2-4 tasks x 1-5 Load/Store/Swap/CompareAndSwap calls on one AtomicValue[int|string|struct] with unique values, or 2-4 tasks x 1-3 Get/use/Put cycles on one Pool with or without New and 0-2 pre-pooled tokens; distinct = distinct hash of the step sequence; non-trivial = at least one preemption inside an API call",
 		Assume: []string{"porcupine v1.3.0 (register model; CompareAndSwap before the first Store left unconstrained, as the statement starts 'once a value has been stored')", "the Pool stub may do whatever sync.Pool documents it may do and nothing else", "bounds: <=4 tasks, <=5 calls each"}})
 	reg(&propInfo{ID: "C09", Tier: "S", QuickRuns: 1000000, ThorRuns: 20000000, RaceShare: 0.25,
 		Faults: []string{"preempt", "holder_stall", "map_order"},
